@@ -174,6 +174,10 @@ pub struct InnerState {
     /// an instance that has answered Ready and is asked again before it was called answers with
     /// an error (Tower allows it: readiness is a reservation that is consumed by `call`)
     pub second_ready_check_fails: bool,
+    /// readiness belongs to the instance: a clone taken from an instance that is ready (and has
+    /// not been called since) needs this many milliseconds from its own first poll_ready before
+    /// it answers Ready (a ConcurrencyLimit-style inner service: the permit sits in the original)
+    pub clone_of_ready_needs_ms: Option<u64>,
     /// the largest number of inner calls that were inside the service at the start of a call
     /// (a call whose future is being dropped right now still counts)
     pub peak_live: usize,
@@ -266,6 +270,7 @@ pub fn new_shared(origin: tokio::time::Instant, mode: Mode) -> Shared {
         busy: false,
         latency_inside_call: false,
         second_ready_check_fails: false,
+        clone_of_ready_needs_ms: None,
         peak_live: 0,
         on_drop: None,
     }))
@@ -275,11 +280,14 @@ pub struct GatedInner {
     pub st: Shared,
     pub instance: u32,
     pub ready: bool,
+    /// see `InnerState::clone_of_ready_needs_ms`
+    slow_ready: Option<u64>,
+    ready_sleep: Option<Pin<Box<tokio::time::Sleep>>>,
 }
 
 impl GatedInner {
     pub fn new(st: Shared) -> Self {
-        GatedInner { st, instance: 0, ready: false }
+        GatedInner { st, instance: 0, ready: false, slow_ready: None, ready_sleep: None }
     }
 }
 
@@ -289,7 +297,8 @@ impl Clone for GatedInner {
         let id = g.next_instance;
         g.next_instance += 1;
         g.clones.push((self.instance, id));
-        GatedInner { st: self.st.clone(), instance: id, ready: false }
+        let slow_ready = if self.ready { g.clone_of_ready_needs_ms } else { None };
+        GatedInner { st: self.st.clone(), instance: id, ready: false, slow_ready, ready_sleep: None }
     }
 }
 
@@ -307,6 +316,17 @@ impl tower::Service<Req> for GatedInner {
     type Future = GatedFuture;
 
     fn poll_ready(&mut self, cx: &mut Context<'_>) -> Poll<Result<(), InnerErr>> {
+        if let Some(ms) = self.slow_ready {
+            let sleep = self.ready_sleep.get_or_insert_with(|| Box::pin(tokio::time::sleep(std::time::Duration::from_millis(ms))));
+            if sleep.as_mut().poll(cx).is_pending() {
+                let mut g = self.st.lock().unwrap();
+                let now = g.now_ms();
+                g.ready_log.push((self.instance, now, ReadyAns::Pending));
+                return Poll::Pending;
+            }
+            self.slow_ready = None;
+            self.ready_sleep = None;
+        }
         let mut g = self.st.lock().unwrap();
         if g.hold_late_ready {
             let known = g.held.iter().position(|h| h.instance == self.instance);
